@@ -10,12 +10,13 @@ PROP = "C08"
 
 TIERS = {
     # streams, runs per stream, real generate_loopy every k-th run
-    "quick": {"streams": 64, "runs": 450, "codegen_every": 9, "budget_s": None,
-              "shadow_every": 450, "enum_tasks": 16, "enum_budget": 800,
-              "enum_cap": 1500},
+    "quick": {"streams": 48, "runs": 450, "codegen_every": 9, "budget_s": None,
+              "shadow_every": 450, "enum_tasks": 12, "enum_budget": 800,
+              "enum_cap": 1500, "proc_groups": 3, "proc_runs": 900},
     "thorough": {"streams": 4000, "runs": 300, "codegen_every": 3,
                  "budget_s": 20 * 60, "shadow_every": 50, "enum_tasks": 1500,
-                 "enum_budget": 6000, "enum_cap": 20000},
+                 "enum_budget": 6000, "enum_cap": 20000, "proc_groups": 150,
+                 "proc_runs": 2500},
 }
 
 
@@ -24,6 +25,135 @@ def evaluate(case, res):
 
 
 from checks.known import match_known  # noqa: E402
+
+
+# {{{ process actors: one interpreter per rank, full pipeline
+
+def _proc_run(ws, case, decisions=None, rng=None):
+    import random
+    from simkit import procexec, simmpi
+    ch = simmpi.Chooser(rng if rng is not None else random.Random(0),
+                        replay=decisions)
+    res = procexec.run_case(ws, case["recipe"], case["cfg"], ch,
+                            iterations=case.get("iterations", 1))
+    return res, ch.trace
+
+
+def run_proc_group(task):
+    import random
+    from simkit import fleet, simmpi
+    seed, (_kind, group), nruns = task[:3]
+    known = driver.load_known_findings(PROP)
+    acc = e1.Accum()
+    t0 = time.monotonic()
+    rng0 = random.Random(f"{seed}:{PROP}:proc:{group}")
+    cfgs = fleet.draw_configs(rng0, 4)
+    ws = [fleet.Worker(c["hashseed"], c["prelude"], f"x{group}.{i}")
+          for i, c in enumerate(cfgs)]
+    acc.extra["process_actor_interpreters"] += len(ws)
+    try:
+        for i in range(nruns):
+            rng = random.Random(f"{seed}:{PROP}:proc:{group}:{i}")
+            recipe = mrecipe.gen_recipe(rng)
+            if recipe["nranks"] < 2:
+                continue
+            case = {"recipe": recipe,
+                    "cfg": simmpi.draw_config(rng, recipe["nranks"]),
+                    "iterations": rng.choice([1, 1, 2]), "real_codegen": False,
+                    "mode": "process", "configs": cfgs}
+            res, trace = _proc_run(ws, case, None, rng)
+            acc.note_run(case, res)
+            acc.extra["process_actor_runs"] += 1
+            v = evaluate(case, res)
+            if v:
+                rest, hits = match_known(case, v, known)
+                for h in hits:
+                    acc.known.append((h, f"proc{group}", i))
+                if rest:
+                    acc.violations.append({
+                        "stream": f"proc{group}", "run": i, "case": case,
+                        "decisions": trace, "classes": e1.classes_of(rest),
+                        "details": rest[:8]})
+                    # the interpreters may be out of step after a failed run
+                    for w in ws:
+                        w.kill()
+                    ws = [fleet.Worker(c["hashseed"], c["prelude"],
+                                       f"x{group}.{j}")
+                          for j, c in enumerate(cfgs)]
+                    if len(acc.violations) >= 2:
+                        break
+    finally:
+        for w in ws:
+            w.close()
+    acc.wall = time.monotonic() - t0
+    return acc
+
+
+def minimise_process(v, target, budget_s=120.0):
+    import random
+    from simkit import fleet, simmpi
+    case, dec = v["case"], v["decisions"]
+    cfgs = case["configs"]
+    t0 = time.monotonic()
+
+    def fresh():
+        return [fleet.Worker(c["hashseed"], c["prelude"], f"m{i}")
+                for i, c in enumerate(cfgs)]
+
+    def fails(cand, dec_hint):
+        for kind, arg in (("replay", dec_hint), ("default", []),
+                          ("seeded", 0), ("seeded", 1), ("seeded", 2)):
+            c2 = cand
+            ws = fresh()
+            try:
+                if kind == "seeded":
+                    res, trace = _proc_run(ws, c2, None,
+                                           random.Random(f"minimise:{arg}"))
+                elif kind == "default":
+                    c2 = dict(cand, cfg=dict(simmpi.DEFAULT_CONFIG))
+                    res, trace = _proc_run(ws, c2, [])
+                else:
+                    res, trace = _proc_run(ws, c2, arg)
+                vv = evaluate(c2, res)
+            except Exception:  # noqa: BLE001
+                vv, trace = [], []
+            finally:
+                for w in ws:
+                    w.kill()
+            if target in e1.classes_of(vv):
+                return c2, trace
+        return None
+    best = (case, dec)
+    progress = True
+    while progress and time.monotonic() - t0 < budget_s:
+        progress = False
+        for rc in mrecipe.shrink_candidates(best[0]["recipe"]):
+            if time.monotonic() - t0 > budget_s:
+                break
+            if rc["nranks"] < 2 or mrecipe.recipe_size(rc) >= \
+                    mrecipe.recipe_size(best[0]["recipe"]):
+                continue
+            got = fails(dict(best[0], recipe=rc), best[1])
+            if got is not None:
+                best = got
+                progress = True
+                break
+    return best
+
+
+def replay_process(doc):
+    from simkit import fleet
+    case = e1.case_from_doc(doc)
+    ws = [fleet.Worker(c["hashseed"], c["prelude"], f"rp{i}")
+          for i, c in enumerate(doc["configs"])]
+    try:
+        res, _t = _proc_run(ws, case, doc["schedule"])
+    finally:
+        for w in ws:
+            w.kill()
+    return case, evaluate(case, res)
+
+# }}}
 
 
 def run_enum_task(task):
@@ -73,6 +203,8 @@ def run_enum_task(task):
 
 def run_stream(task):
     if isinstance(task[1], tuple):
+        if task[1][0] == "proc":
+            return run_proc_group(task)
         return run_enum_task(task)
     seed, stream, nruns, codegen_every = task[:4]
     shadow_every = task[4] if len(task) > 4 else 0
@@ -114,6 +246,10 @@ def replay(path):
     import json
     with open(path) as f:
         doc = json.load(f)
+    if doc.get("mode") == "process":
+        case, v = replay_process(doc)
+        rest, _hits = match_known(case, v, driver.load_known_findings(PROP))
+        return doc, e1.classes_of(rest), rest
     case = e1.case_from_doc(doc)
     res, _trace = e1.run_with(case, doc["schedule"])
     v = evaluate(case, res)
@@ -126,6 +262,9 @@ def replay(path):
 def make_tasks(seed, conf):
     tasks = [(seed, k, conf["runs"], conf["codegen_every"],
               conf.get("shadow_every", 0)) for k in range(conf["streams"])]
+    for g in range(conf.get("proc_groups", 0)):
+        tasks.insert(min(len(tasks), 3 * g + 1),
+                     (seed, ("proc", g), conf["proc_runs"]))
     for k in range(conf.get("enum_tasks", 0)):
         tasks.insert(min(len(tasks), 2 * k),
                      (seed, ("enum", k), conf["enum_budget"], conf["enum_cap"]))
